@@ -333,6 +333,11 @@ def build_script(ctx, exe, nblocks, nmax, n_interior, n_loss, n_msc):
             for _ in range(n_msc):
                 emass = rng.choice([0.51099891, 0.51099891, 105.6583745])
                 lam = logu(rng, 1e-7, 1e4)
+                if rng.chance(1, 4):
+                    # near-vacuum / very high energy: MSC mean free path many orders of magnitude
+                    # above the range, where the expm1 / exp(w*log(slope)) formulas can round the
+                    # geometrical path a few ulp above the true path before the final min()
+                    lam = r * logu(rng, 1e10, 1e18)
                 kk = rng.below(8)
                 if kk == 0:
                     t = logu(rng, 1e-12, 1e-7)
